@@ -217,6 +217,11 @@ where
         World { mref, n: nvars, hs: Vec::new(), trace: Vec::new(), label, ooms: 0, steps: 0, seq_only: false, oom_ok: false, bg_gc: nodes >= 100, name_counter: 0, explicit_gcs: 0, digest: None }
     }
 
+    /// A world on an existing manager (several worlds may share one manager: concurrent scripts)
+    pub fn attach(mref: MRefOf<K>, nvars: u32, nodes: usize, label: String) -> Self {
+        World { mref, n: nvars, hs: Vec::new(), trace: Vec::new(), label, ooms: 0, steps: 0, seq_only: false, oom_ok: false, bg_gc: nodes >= 100, name_counter: 0, explicit_gcs: 0, digest: None }
+    }
+
     pub fn sig(&self, clause: &str) -> String {
         format!("{}:{}", K::NAME, clause)
     }
